@@ -136,27 +136,26 @@ theorem runScript_pres (self : Nat) : ∀ (acts : List Act) (st : St), Pres st (
     | cancel id => simpa [runScript] using (cancel_pres st id).trans (ih _)
     | cancelSelf => simpa [runScript] using (cancel_pres st self).trans (ih _)
 
-theorem finish_pres (st : St) (id : Nat) (r : Req) (res : Result) : Pres st (finish st id r res).1 := by
-  have hs := runScript_pres id r.script st
-  unfold finish
-  generalize runScript id st r.script = rs at hs
-  obtain ⟨st1, outs⟩ := rs
-  simp only at hs ⊢
-  refine hs.trans ?_
+theorem finish_pres (st : St) (id : Nat) (r : Req) (res : Result) (hf : find st.reqs id = some r) :
+    Pres st (finish st id r res).1 := by
+  generalize hst0 : ({ st with reqs := erase st.reqs id, called := st.called ++ [r.serial] } : St) = st0
+  have hfin : (finish st id r res).1 = (runScript id st0 r.script).1 := by rw [← hst0]; rfl
+  rw [hfin]
+  refine Pres.trans ?_ (runScript_pres id r.script st0)
   intro hfl
-  have hfl' : st1.idReuse = false ∧ (st1.reqs.any fun e => e.1 == id && e.2.serial != r.serial) = false := by
-    simpa [Bool.or_eq_false_iff] using hfl
-  refine ⟨hfl'.1, fun hk ha => ⟨List.Nodup.sublist (erase_keys_sublist _ _) hk, ?_⟩⟩
+  have hfl' : st.idReuse = false := by rw [← hst0] at hfl; exact hfl
+  refine ⟨hfl', fun hk ha => ?_⟩
+  rw [← hst0]
+  refine ⟨List.Nodup.sublist (erase_keys_sublist _ _) hk, ?_⟩
   intro s hlt
   rcases ha s hlt with h1 | h1 | h1 | ⟨e, he, rfl⟩
   · exact Or.inl (List.mem_append.mpr (Or.inl h1))
   · exact Or.inr (Or.inl h1)
   · exact Or.inr (Or.inr (Or.inl h1))
   · by_cases hid : e.1 = id
-    · left
-      have := List.any_eq_false.mp hfl'.2 e he
-      simp [hid] at this
-      exact List.mem_append.mpr (Or.inr (by simp [this]))
+    · have : e = (id, r) := key_inj st.reqs hk he (find_mem hf) hid
+      subst this
+      exact Or.inl (List.mem_append.mpr (Or.inr (by simp)))
     · exact Or.inr (Or.inr (Or.inr ⟨e, mem_erase_of_ne he hid, rfl⟩))
 
 theorem applyReply_pres (st : St) (rep : Reply) : Pres st (applyReply st rep).1 := by
@@ -164,17 +163,19 @@ theorem applyReply_pres (st : St) (rep : Reply) : Pres st (applyReply st rep).1 
   | ignore => exact Pres.refl st
   | answer id a c =>
     simp only [applyReply]
-    split
-    · exact Pres.refl st
-    · exact finish_pres _ _ _ _
+    cases hf : find st.reqs id with
+    | none => exact Pres.refl st
+    | some r => exact finish_pres _ _ _ _ hf
   | rcode id rc =>
     simp only [applyReply]
-    split
-    · exact Pres.refl st
-    · split
-      · exact finish_pres _ _ _ _
+    cases hf : find st.reqs id with
+    | none => exact Pres.refl st
+    | some r =>
+      simp only
+      split
+      · exact finish_pres _ _ _ _ hf
       · split
-        · exact finish_pres _ _ _ _
+        · exact finish_pres _ _ _ _ hf
         · split
           · intro hfl
             refine ⟨hfl, fun hk ha => ⟨?_, ?_⟩⟩
@@ -187,7 +188,7 @@ theorem applyReply_pres (st : St) (rep : Reply) : Pres st (applyReply st rep).1 
               · exact Or.inr (Or.inr (Or.inl h1))
               · refine Or.inr (Or.inr (Or.inr ⟨_, List.mem_map.mpr ⟨e, he, rfl⟩, ?_⟩))
                 split <;> rfl
-          · exact finish_pres _ _ _ _
+          · exact finish_pres _ _ _ _ hf
 
 theorem onRecv_pres (st : St) (d : List Byte) : Pres st (onRecv st d).1 := by
   unfold onRecv
@@ -205,10 +206,9 @@ theorem foldl_onTimeout_pres {st0 : St} (items : List Nat) :
     intro acc h
     apply ih
     unfold onTimeout
-    split
-    · exact h
-    · rename_i r _
-      exact h.trans (finish_pres acc.1 x r { status := .timeout })
+    cases hf : find acc.1.reqs x with
+    | none => exact h
+    | some r => exact h.trans (finish_pres acc.1 x r { status := .timeout } hf)
 
 theorem tick_pres (st : St) : Pres st (tick st).1 := by
   unfold tick
@@ -260,11 +260,9 @@ theorem runScript_called (self : Nat) : ∀ (acts : List Act) (st : St), (runScr
 
 theorem finish_called (st : St) (id : Nat) (r : Req) (res : Result) :
     CalledOK st (finish st id r res).1 (finish st id r res).2 := by
-  have := runScript_called id r.script st
-  unfold finish CalledOK
-  generalize runScript id st r.script = rs at this
-  obtain ⟨st1, outs⟩ := rs
-  simp only at this ⊢
+  have := runScript_called id r.script { st with reqs := erase st.reqs id, called := st.called ++ [r.serial] }
+  unfold CalledOK
+  show (runScript id _ r.script).1.called = _
   rw [this]; rfl
 
 theorem applyReply_called (st : St) (rep : Reply) : CalledOK st (applyReply st rep).1 (applyReply st rep).2 := by
